@@ -262,6 +262,10 @@ inductive Op
   | endpoints (c : Conf)       -- `EndpointsOnlyChange` with Plus: `updateUpstreamServers` only
   deriving Repr
 
+def Op.conf : Op → Conf
+  | .reload c => c
+  | .endpoints c => c
+
 def step (a : Api) : Op → Api
   | .reload c => updateUpstreamServers c (reloadNginx c a)
   | .endpoints c => updateUpstreamServers c a
@@ -269,5 +273,41 @@ def step (a : Api) : Op → Api
 def run (a : Api) : List Op → Api
   | [] => a
   | o :: os => run (step a o) os
+
+/-! ### repaired variant for known finding `C13:plus_empty_no_503` (NOT what the current code does)
+
+A repaired `updateUpstreamServers` sends the 503 placeholder server for an http upstream without endpoints.
+Its effect on the API state is the current effect followed by "set every empty http upstream that exists to
+[placeholder]".  The correspondence accepts either variant, so that such a repair in /repo turns the
+KNOWN-FINDING line off instead of raising a false alarm. -/
+
+def fix503 (ups : List Up) : List (String × List String) :=
+  ups.filterMap fun u => if u.eps.isEmpty then some (u.name, [nginx503Server]) else none
+
+def updateUpstreamServersFixed (c : Conf) (a : Api) : Api :=
+  let b := updateUpstreamServers c a
+  { b with http := applyAll b.http (fix503 c.http) }
+
+def stepFixed (a : Api) : Op → Api
+  | .reload c => updateUpstreamServersFixed c (reloadNginx c a)
+  | .endpoints c => updateUpstreamServersFixed c a
+
+/-! ### repaired variant for known finding `C13:plus_stream_upstream_absent` (NOT what the current code does)
+
+A repaired endpoints-only path reloads when the configuration has a stream upstream with endpoints that the
+running NGINX does not have (such upstreams are not generated while they have no endpoints). -/
+
+def needsReload (c : Conf) (a : Api) : Bool :=
+  c.stream.any fun u => !u.eps.isEmpty && !decide (u.name ∈ a.stream.keys)
+
+def stepB (a : Api) : Op → Api
+  | .reload c => step a (.reload c)
+  | .endpoints c => if needsReload c a then step a (.reload c) else step a (.endpoints c)
+
+/-- all four combinations, for the correspondence -/
+def stepV (fixA fixB : Bool) (a : Api) : Op → Api
+  | .reload c => (if fixA then stepFixed else step) a (.reload c)
+  | .endpoints c =>
+    (if fixA then stepFixed else step) a (if fixB && needsReload c a then .reload c else .endpoints c)
 
 end NGF.Resolver
